@@ -4,6 +4,16 @@ import json, sys, os
 V = '/verif'
 CLAIMED = {
 
+ 'C16': ("explicit enumeration of all event sequences (depth-bounded) over the real Client with a fake RoundTripper + stateless DFS over schedules for callers racing with Update",
+         "Every sequence of 3 (thorough 4) events over {Update(6 lists incl. duplicates/empty strings/empty list), detector tick, health flip, Director on/off, a call of each of the 6 forms} under all three scheduling policies: every routed address is the Director's non-empty answer or a member of the most recently supplied list; plus two callers and a detector tick racing with Update (d<=2): routed addresses belong to the old or the new list, and calls started after Update returned only go to the new list.",
+         "probe Pings issued by the client's own detector are not calls and are excluded; transport replaced by a fake RoundTripper", "5 C16"),
+ 'C17': ("explicit enumeration of all call sequences with environment moves (latency changes, pauses, every rand.Intn outcome) against a reference model of the documented policy",
+         "RoundRobin/Random over 2-3 live targets, all call forms, detector ticks in between, cursor starting at every position: any n consecutive round-robin calls hit n distinct targets and Random only picks live targets (every rand.Intn outcome explored). LeastTime over 2-3 targets, Alpha in {0.8,0.5,0}, Tick in {100ms,10ms}, every sequence of 5 (thorough 7) calls each preceded by {nothing, 30ms pause, 120ms pause, a latency change}: each call is the due probe (rotation, at most one per Tick) or goes to a target whose reference estimate (first sample replaces the maximum, then old*alpha+new*(1-alpha)) is minimal; an unreachable target is dropped and re-probed after recovery.",
+         "virtual clock; latencies from {1,5,50} ms", "5 C17"),
+ 'C18': ("stateless DFS over thread schedules (deviation-bounded) of the real Client with fake RoundTripper and virtual clock, scripted health histories",
+         "2-3 callers of all six call forms waiting with no live target: released (successfully, to the live target) within two detector ticks of a target coming up; otherwise failing not before DialTimeout and never waiting longer (ErrTimeout for Call/CallWithContext, non-nil for the others); Close releases them at once (ErrShutdown) and every later call fails at once; Fallback shorter/longer than DialTimeout; failover: a refusing target stops receiving calls within two ticks while another is healthy and is used again after recovery, for every call form; no thread is left behind after Close.",
+         "detection bound taken as two detector ticks (100 ms each); bounds d<=2 quick / d<=3 thorough", "5 C18"),
+
  'C13': ("explicit enumeration of all event sequences (depth-bounded) over the real Transport with virtual clock and fake network + stateless DFS over schedules for racing callers",
          "Real Transport over the fake network against real servers at two addresses, limits {(1,1),(2,1),(2,2),(0,0)->defaults,(1,3)->clamp,(3,2)}; every sequence of 4 events over {call(a), call(b), long gated call, open stream, tick, advance>KeepAlive, CloseIdleConnections, kill, restart} and three racing callers plus a racing housekeeping tick from three pool states: at every dial and every quiescent point the open connections per address never exceed the effective MaxConnsPerHost and the idle queue (read by reflection) never exceeds the effective MaxIdleConnsPerHost.",
          "idle count read by field name via reflection (clause skipped if the fields disappear); depth L=4 sequential, d<=1 quick / d<=2 thorough for racing callers", "5 C13"),
